@@ -388,7 +388,8 @@ func forEachMediaRange(header []byte, functor func([]byte)) {
 			}
 		}
 
-		functor(header[:n])
+		// optional whitespace before the list comma is not part of the element (RFC 9110 section 5.6.1)
+		functor(utils.TrimRight(header[:n], ' '))
 
 		if n >= len(header) {
 			return
